@@ -154,6 +154,12 @@ def fam_control():
 def fam_calls():
     out = []
     out += [
+        # a function defined inside another function sees its own parameters / locals and the globals, never the
+        # enclosing activation: names that are BOTH a global and a parameter/local of the enclosing function
+        ("call:inner-fn-reads-global-not-outer-param", "stel k = 100 + %s; functie outer(pad, k) { functie inner(a) { a + k }; inner(1) + k }; outer(5, 7)" % H0),
+        ("call:inner-fn-writes-global-not-outer-param", "stel teller = 0; functie outer(teller) { functie bump(a, b) { teller = teller + 5; teller }; bump(1, 2) + teller }; [outer(%s), teller]" % H0),
+        ("call:inner-fn-reads-global-not-outer-local", "stel g = %s; functie outer() { stel x = 1; stel g = 50; functie inner(p, q, r) { stel l = p + q + r; l + g }; inner(1, 2, 3) + g }; [outer(), g]" % H0),
+        ("call:inner-fn-value-escapes", "stel n = 3; functie mk(n) { functie(x) { x * n } }; stel f = mk(%s); f(2)" % H0),
         ("call:args-order", 'functie f(a, b, c) { a * 100 + b * 10 + c }; stel t = 0; functie n() { t = t + 1; t }; f(n(), n(), n())'),
         ("call:positional", "functie f(a, b, c, d) { [d, c, b, a] }; f(%s, %s, %s, 4)" % (H0, H1, H2)),
         ("call:locals-padded", "functie f(a) { stel b = a + 1; stel c = b + 1; stel d = c + 1; [a, b, c, d] }; f(%s)" % H0),
@@ -769,5 +775,18 @@ def fam_gc():
         ("gc:result-nested-three-levels", pre + 'stel x = ["a"]; noop(); [x, [x, [2.5, "deep"]], %s]' % H0),
         ("gc:result-from-function-nested", pre + 'functie build(n) { [n, ["diep", [n + 0.5]]] }; build(2.0)'),
         ("gc:result-shared-substructure", pre + 'stel s = [0.25, "w"]; stel r = [s, [s, [s]]]; noop(); r'),
+        ("gc:result-contains-itself", pre + "stel a = [1.5, 0]; a[1] = a; noop(); a"),
+        ("gc:result-is-element-of-global", pre + 'stel a = [1.5, [2.5, "s"]]; noop(); a[1]'),
+        ("gc:result-is-string-char", pre + 'stel s = "héllo"; noop(); s[%s]' % H0),
+        # abort-point sweeps: one symbolic hole selects WHERE the run fails (each value is a path: a different instruction
+        # count, a different set of live heap values, inside / outside a call, before / after collections)
+        ("gc:abort-sweep-top", pre + 'stel k = %s; stel a = [1.5, "x"]; als k == 0 { a[9]; }; stel b = mk(2); als k == 1 { b[9]; }; noop(); als k == 2 { a[9]; }; '
+                                     'stel c = [a, [b]]; als k == 3 { c[9]; }; a = 0; noop(); als k == 4 { b[9]; }; [b, c]' % H0),
+        ("gc:abort-sweep-in-call", pre + 'functie work(k, acc) { stel t = [0.5 + 1.0, "loc"]; als k == 0 { t[9]; }; acc[0] = t; als k == 1 { acc[9]; }; stel u = mk(3); noop(); '
+                                         'als k == 2 { u[9]; }; [t, u] }; stel acc = [0]; stel r = work(%s, acc); als %s == 3 { r[9]; }; [r, acc]' % (H0, H0)),
+        ("gc:abort-sweep-nested-calls", pre + 'functie in(k, l) { l[0] = 2.5 + 1.0; als k == 0 { l[9]; }; stel s = "in"; s[0] = "I"; als k == 1 { s[9]; }; s }; '
+                                              'functie out(k) { stel l = [0, "o"]; stel s = in(k, l); als k == 2 { l[9]; }; noop(); als k == 3 { s[9]; }; [l, s] }; stel r = out(%s); als %s == 4 { r[9]; }; r' % (H0, H0)),
+        ("gc:abort-sweep-type-errors", pre + 'stel k = %s; stel a = [1.5]; als k == 0 { a + 1; }; stel s = "t"; als k == 1 { s - s; }; functie g(v) { als k == 2 { v[0] && ja; }; [v] }; stel r = g(a); als k == 3 { r(); }; als k == 4 { lengte(1); }; [r, s]' % H0),
+        ("gc:abort-in-loop-with-garbage", pre + 'stel i = 0; stel keep = []; zolang i < 4 { stel t = mk(i); noop(); als i == %s { t[9]; }; keep = [t, keep]; i += 1; }; keep' % H0),
     ]
     return out
